@@ -392,7 +392,15 @@ func c16(c *core.Ctx) {
 				fm := got["FullMethod"]
 				okFM := false
 				why := "FullMethod is not \"/<service>/<stream name>\" of the dispatched entry"
-				if call, _, isCall := core.CallResult(fm); isCall && core.InfoOf(&call.Call).Is("fmt.Sprintf") {
+				var fmCall *ssa.Call
+				if fm != nil {
+					for _, o := range core.Origins(fm) {
+						if call, _, isCall := core.CallResult(core.ResolveFree(o)); isCall && core.InfoOf(&call.Call).Is("fmt.Sprintf") {
+							fmCall = call
+						}
+					}
+				}
+				if call := fmCall; call != nil {
 					format, _ := core.ConstString(call.Call.Args[0])
 					args, unp := core.VariadicArgs(call.Call.Args[1])
 					if format == "/%s/%s" && unp && len(args) == 2 {
